@@ -461,6 +461,23 @@ func main() {
 	previewOps(o)
 	linecolOps(o)
 	writerOps(o, cfg, hlib.NewRand(cfg.Seed^0x5eed))
+	// in replay mode only when the file holds a direct op line (they are re-run in full)
+	wantDirect := cfg.Replay == ""
+	if !wantDirect {
+		for _, l := range hlib.ReplayLines(cfg.Replay) {
+			if ws := strings.Fields(l); len(ws) > 0 && ws[0] != "call" && ws[0] != "asciiw" && ws[0] != "hexpw" {
+				wantDirect = true
+			}
+		}
+	}
+	if wantDirect {
+		t0 := time.Now()
+		wrapDirectOps(o, pool)
+		o.Stat("wrap_direct_ms", int(time.Since(t0).Milliseconds()))
+		t0 = time.Now()
+		dumprangeOps(o, pool, cfg)
+		o.Stat("dumprange_ms", int(time.Since(t0).Milliseconds()))
+	}
 
 	// the pseudo functions for the index / slice syntax on binaries
 	fns = append(fns, fnInfo{name: "@index", arity: 1, src: "syntax"}, fnInfo{name: "@slice", arity: 2, src: "syntax"},
@@ -643,72 +660,84 @@ func main() {
 // ---- direct ops: the modelled helpers called without the interpreter ----------------------
 
 func directOps(o *hlib.Out, p poolT) {
-	// gojqx.CastFn (types.go:20-160): the argument casts of the FuncN/IterN wrappers
 	for _, pv := range p.vals {
-		v := pv.v
-		cast := func(kind string, f func() (string, bool)) {
-			obs, panicked := hlib.Catch(func() string {
-				s, ok := f()
-				if !ok {
-					return "fail"
-				}
-				return "ok " + s
-			})
-			if panicked {
-				obs = "panic"
-			}
-			o.Case("cast "+kind+" "+pv.tok, obs)
-			o.Class("cast " + kind + " " + typeWord(pv.tok))
-		}
-		cast("int", func() (string, bool) { x, ok := gojqx.CastFn[int](v, mapstruct.ToStruct); return tokOf(x), ok })
-		cast("float", func() (string, bool) { x, ok := gojqx.CastFn[float64](v, mapstruct.ToStruct); return tokOf(x), ok })
-		cast("big", func() (string, bool) {
-			x, ok := gojqx.CastFn[*big.Int](v, mapstruct.ToStruct)
-			if !ok {
-				return "", false
-			}
-			return tokOf(x), ok
-		})
-		cast("bool", func() (string, bool) { x, ok := gojqx.CastFn[bool](v, mapstruct.ToStruct); return tokOf(x), ok })
-		cast("string", func() (string, bool) {
-			x, ok := gojqx.CastFn[string](v, mapstruct.ToStruct)
-			if !ok {
-				return "", false
-			}
-			_ = x
-			return "str", ok
-		})
-		cast("indent", func() (string, bool) {
-			x, ok := gojqx.CastFn[indentOpts](v, mapstruct.ToStruct)
-			return tokOf(x.Indent), ok
-		})
-		// OptionsFromValue (interp.go:1059): clamps of the display options
-		obs, panicked := hlib.Catch(func() string {
-			var plain any = v
-			if jv, ok := v.(gojq.JQValue); ok {
-				plain = jv.JQValueToGoJQ()
-			}
-			// fq always passes its option object, which has a valid bits_format
-			if m, ok := plain.(map[string]any); ok {
-				if _, has := m["bits_format"]; !has {
-					c := cloneVal(m).(map[string]any)
-					c["bits_format"] = "string"
-					plain = c
-				}
-			}
-			x, err := interp.VerifC13OptionsFromValue(plain)
-			if err != nil {
-				return "err"
-			}
-			return fmt.Sprintf("ok depth=%d array_truncate=%d string_truncate=%d line_bytes=%d display_bytes=%d addrbase=%d sizebase=%d",
-				x.Depth, x.ArrayTruncate, x.StringTruncate, x.LineBytes, x.DisplayBytes, x.Addrbase, x.Sizebase)
-		})
-		if panicked {
-			obs = "panic"
-		}
-		o.Case("opts "+pv.tok, obs)
-		o.Class("opts " + typeWord(pv.tok))
+		castOps(o, pv.tok, pv.v)
+		castIndentOp(o, pv.tok, pv.v)
+		optsOp(o, pv.tok, pv.v)
 	}
+}
+
+// gojqx.CastFn (types.go:20-160): the argument casts of the FuncN/IterN wrappers
+func castOp(o *hlib.Out, kind, tok string, f func() (string, bool)) {
+	obs, panicked := hlib.Catch(func() string {
+		s, ok := f()
+		if !ok {
+			return "fail"
+		}
+		return "ok " + s
+	})
+	if panicked {
+		obs = "panic"
+	}
+	o.Case("cast "+kind+" "+tok, obs)
+	o.Class("cast " + kind + " " + typeWord(tok))
+}
+
+func castOps(o *hlib.Out, tok string, v any) {
+	castOp(o, "int", tok, func() (string, bool) { x, ok := gojqx.CastFn[int](v, mapstruct.ToStruct); return tokOf(x), ok })
+	castOp(o, "float", tok, func() (string, bool) { x, ok := gojqx.CastFn[float64](v, mapstruct.ToStruct); return tokOf(x), ok })
+	castOp(o, "big", tok, func() (string, bool) {
+		x, ok := gojqx.CastFn[*big.Int](v, mapstruct.ToStruct)
+		if !ok {
+			return "", false
+		}
+		return tokOf(x), ok
+	})
+	castOp(o, "bool", tok, func() (string, bool) { x, ok := gojqx.CastFn[bool](v, mapstruct.ToStruct); return tokOf(x), ok })
+	castOp(o, "string", tok, func() (string, bool) {
+		x, ok := gojqx.CastFn[string](v, mapstruct.ToStruct)
+		if !ok {
+			return "", false
+		}
+		_ = x
+		return "str", ok
+	})
+}
+
+func castIndentOp(o *hlib.Out, tok string, v any) {
+	castOp(o, "indent", tok, func() (string, bool) {
+		x, ok := gojqx.CastFn[indentOpts](cloneVal(v), mapstruct.ToStruct)
+		return tokOf(x.Indent), ok
+	})
+}
+
+// OptionsFromValue (interp.go:1059): clamps of the display options
+func optsOp(o *hlib.Out, tok string, v any) {
+	obs, panicked := hlib.Catch(func() string {
+		var plain any = v
+		if jv, ok := v.(gojq.JQValue); ok {
+			plain = jv.JQValueToGoJQ()
+		}
+		// fq always passes its option object, which has a valid bits_format
+		if m, ok := plain.(map[string]any); ok {
+			if _, has := m["bits_format"]; !has {
+				c := cloneVal(m).(map[string]any)
+				c["bits_format"] = "string"
+				plain = c
+			}
+		}
+		x, err := interp.VerifC13OptionsFromValue(plain)
+		if err != nil {
+			return "err"
+		}
+		return fmt.Sprintf("ok depth=%d array_truncate=%d string_truncate=%d line_bytes=%d display_bytes=%d addrbase=%d sizebase=%d",
+			x.Depth, x.ArrayTruncate, x.StringTruncate, x.LineBytes, x.DisplayBytes, x.Addrbase, x.Sizebase)
+	})
+	if panicked {
+		obs = "panic"
+	}
+	o.Case("opts "+tok, obs)
+	o.Class("opts " + typeWord(tok))
 }
 
 // optsfmt: the bits format function OptionsFromValue returns, run on 1000 zero bytes, for the
@@ -728,22 +757,26 @@ func optsfmtOps(o *hlib.Out, p poolT) {
 			o.Case("optsfmt "+t, "badtoken")
 			continue
 		}
-		obs, panicked := hlib.Catch(func() string {
-			s, err := interp.VerifC13BitsFormat(cloneVal(v), 1000)
-			if err != nil {
-				return "err"
-			}
-			if i, j := strings.IndexByte(s, '<'), strings.IndexByte(s, '>'); i == 0 && j > 0 {
-				return "ok " + s[1:j]
-			}
-			return "ok -"
-		})
-		if panicked {
-			obs = "panic"
-		}
-		o.Case("optsfmt "+t, obs)
+		optsfmtOp(o, t, v)
 		o.Class("optsfmt " + t)
 	}
+}
+
+func optsfmtOp(o *hlib.Out, t string, v any) {
+	obs, panicked := hlib.Catch(func() string {
+		s, err := interp.VerifC13BitsFormat(cloneVal(v), 1000)
+		if err != nil {
+			return "err"
+		}
+		if i, j := strings.IndexByte(s, '<'), strings.IndexByte(s, '>'); i == 0 && j > 0 {
+			return "ok " + s[1:j]
+		}
+		return "ok -"
+	})
+	if panicked {
+		obs = "panic"
+	}
+	o.Case("optsfmt "+t, obs)
 }
 
 // preview: the real previewValue on every multi-byte string x every truncation limit; the
@@ -753,22 +786,26 @@ func previewOps(o *hlib.Out) {
 	strs := append([]string{"", "abc"}, truncStrings...)
 	for _, s := range strs {
 		for _, st := range limits {
-			obs, panicked := hlib.Catch(func() string {
-				q := interp.VerifC13PreviewString(s, st)
-				u, err := strconv.Unquote(q)
-				if err != nil {
-					return "badquote"
-				}
-				return fmt.Sprintf("ok %d", len([]rune(u)))
-			})
-			if panicked {
-				obs = "panic"
-			}
-			op := fmt.Sprintf("preview s:%s n:%d", hexOrDash([]byte(s)), st)
-			o.Case(op, obs)
-			o.Class(op)
+			previewOp(o, s, st)
+			o.Class(fmt.Sprintf("preview s:%s n:%d", hexOrDash([]byte(s)), st))
 		}
 	}
+}
+
+func previewOp(o *hlib.Out, s string, st int) {
+	obs, panicked := hlib.Catch(func() string {
+		q := interp.VerifC13PreviewString(s, st)
+		u, err := strconv.Unquote(q)
+		if err != nil {
+			return "badquote"
+		}
+		return fmt.Sprintf("ok %d", len([]rune(u)))
+	})
+	if panicked {
+		obs = "panic"
+	}
+	op := fmt.Sprintf("preview s:%s n:%d", hexOrDash([]byte(s)), st)
+	o.Case(op, obs)
 }
 
 // ---- the column writers of the hex dump, driven directly ----------------------------------
